@@ -204,6 +204,7 @@ def C08(prog: Program, run: Run, tier: str) -> None:
     run.add(specific.rule_signrole(prog) + extra.from_bbox_origin(prog), "R-SIGNROLE edge chosen by the sign of the same-axis resolution; anchor offset removed before and restored after snapping; resolution-driven grids take their origin from snap_grid on every path")
     run.add(_only(axis.rule_axis(prog, {"geobox", "math"}), "geobox:GeoBox.from_bbox", "geobox:GeoBox.from_geopolygon", "math:snap", "math:_snap", "geobox:_norm_anchor"), AXIS_DESC)
     run.add(extra.polygon_bbox_last(prog), "R-GUARDSEQ from_geopolygon takes the bounding box of the re-projected polygon")
+    run.add(findings.region_densification(prog), "R-GUARDSEQ absence-of-guard clause behind a recorded finding (see known_findings.json)")
     run.add(_only(specific.rule_exhaust(prog), "geobox:"), "R-EXHAUST anchor literals total, EDGE->0, CENTER->0.5, tight->floating")
     run.add(_only(_fwd(prog, {"geobox", "overlap"}), "geobox:GeoBox.from_", "geobox:GeoBox.to_crs", "geobox:GeoBox.zoom_to", "geobox:GeoBoxBase.compute_zoom_to", "overlap:compute_output_geobox", "geobox:zoom_to"), FWD_DESC)
     run.floor("R-SIGNROLE|", 8)
@@ -245,6 +246,7 @@ def C11(prog: Program, run: Run, tier: str) -> None:
     run.add(_only(axis.rule_axis(prog, {"overlap", "crs", "geobox"}), "overlap:compute_output_geobox", "overlap:get_scale", "crs:", "geobox:GeoBox.from_bbox", "geobox:GeoBoxBase.footprint"), AXIS_DESC)
     run.add([i for i in valueobj.rule_cache(prog) if "KEYCANON" not in i.construct], "R-CACHE the transformer cache key is complete (from, to, always_xy) and its id() keys are pinned")
     run.add(round3.shape_beats_resolution(prog), "R-GUARDSEQ a numeric resolution is used only when no shape was given")
+    run.add(findings.footprint_sampling(prog), "R-GUARDSEQ absence-of-guard clause behind a recorded finding (see known_findings.json)")
     run.floor("R-GUARDSEQ|", 6)
 
 
